@@ -2,12 +2,12 @@ SPECIFICATION Spec
 CONSTANTS
   Deviations <- AllDevs
   MaxNodes = 2
-  Worlds <- QuickWorlds
+  Worlds <- R3World
   Rich = FALSE
   NumIter = 2
+  EarlyStop = TRUE
   Sim = FALSE
-  Fine = TRUE
-  Mutant = "none"
+  Fine = FALSE
+  Mutant = "transpose_order"
 INVARIANT PropertyHolds
-INVARIANT Emit
 CHECK_DEADLOCK FALSE
